@@ -23,13 +23,14 @@ import (
 	"strings"
 	"time"
 	"unicode/utf8"
+	"unsafe"
 
 	tally "github.com/uber-go/tally/v4"
 	"github.com/uber-go/tally/v4/instrument"
 )
 
 type c10Op struct {
-	Op   string  `json:"op"` // sub tag timer rec pass start hist hstart stop call exec close begin end
+	Op   string  `json:"op"` // sub tag timer rec pass start hist hstart stop call exec close begin end timerx (Timer whose allocation the cached reporter refuses)
 	H    int     `json:"h"`  // the handle the call is made on
 	Name B       `json:"name,omitempty"`
 	Tags map[B]B `json:"tags,omitempty"`
@@ -60,6 +61,11 @@ type c10Case struct {
 	// inside Record); not sent to the model. Ops is the prelude (sub / tag), the
 	// timer lives in the last scope.
 	Storm []int `json:"storm,omitempty"`
+	// Base: what the clock script's values are offsets from (c10Instant): 0 the Unix epoch, 1 the zero
+	// time.Time (year 1), 2 the year 2400, 3 the year 1600 - all without a monotonic reading -, 4 a genuine
+	// time.Now() reading: the script moves its monotonic part, the wall clock part is stepped around.
+	// Elapsed times are differences, so the expectations (and the model) do not depend on the base.
+	Base int `json:"base,omitempty"`
 	// San: ScopeOptions.SanitizeOptions of the root scope (nil = none; reporter-backed flavours only)
 	San *c10San `json:"san,omitempty"`
 }
@@ -326,13 +332,16 @@ type c10ExecB struct {
 	start int64
 }
 type c10Book struct {
-	execs  []c10ExecB
-	scopes []c10Scope
-	timers []c10Metric
-	hists  []c10Metric
-	sws    []c10Sw
-	calls  []c10Call
-	seen   [3]map[string]string // kind (timer, counter, histogram) -> reported identity -> object
+	cached   bool            // the root has a cached reporter (it refuses allocations, c09PanicAlloc's policy)
+	made     map[string]bool // timer objects that exist
+	onceSeen map[string]bool // fully qualified names the reporter has been asked to allocate a timer for
+	execs    []c10ExecB
+	scopes   []c10Scope
+	timers   []c10Metric
+	hists    []c10Metric
+	sws      []c10Sw
+	calls    []c10Call
+	seen     [3]map[string]string // kind (timer, counter, histogram) -> reported identity -> object
 }
 type c10Sw struct {
 	timer, hist int // handle of the recorder (-1 = not that kind)
@@ -370,6 +379,19 @@ func (s c10Scope) callMetrics(name string) c10Call {
 	return c10Call{e.metric(name), k.metric(name), s.sub(name).metric("latency")}
 }
 
+// refuses: would the cached reporter refuse (panic in) the AllocateTimer call
+// that Timer(name) on scope s makes now? Only a timer that does not exist yet is
+// allocated; names containing "boom" are always refused, names containing
+// "once" the first time the reporter is asked for them.
+func (b *c10Book) refuses(s c10Scope, name string) bool {
+	m := s.metric(name)
+	if !b.cached || b.made[m.obj] {
+		return false
+	}
+	fq := m.strs[0]
+	return strings.Contains(fq, "boom") || (strings.Contains(fq, "once") && !b.onceSeen[fq])
+}
+
 // collides reports whether creating metric m of the kind would give two
 // distinct objects the same reported identity (same name and tags): a test
 // scope's Snapshot() is a map keyed by that identity (property C11's
@@ -394,7 +416,7 @@ func newBook(c *c10Case) *c10Book {
 	root := c10Scope{z.sn(string(c.Prefix)), z.stags(tagsOf(c.Tags)), z, g}
 	g.root = root.id()
 	g.note(g.root)
-	return &c10Book{scopes: []c10Scope{root}}
+	return &c10Book{scopes: []c10Scope{root}, cached: c.Flavour == 1 || c.Flavour == 3, made: map[string]bool{}, onceSeen: map[string]bool{}}
 }
 
 // apply updates the book for one op; clockAt is the number of clock readings
@@ -412,7 +434,13 @@ func (b *c10Book) apply(o c10Op, clock func(int) int64, clockAt int) int {
 	case "timer":
 		m := b.scopes[o.H].metric(string(o.Name))
 		b.note(0, m)
+		if !b.made[m.obj] {
+			b.onceSeen[m.strs[0]] = true
+		}
+		b.made[m.obj] = true
 		b.timers = append(b.timers, m)
+	case "timerx":
+		b.onceSeen[b.scopes[o.H].metric(string(o.Name)).strs[0]] = true
 	case "hist":
 		m := b.scopes[o.H].metric(string(o.Name))
 		b.note(2, m)
@@ -438,6 +466,7 @@ func (b *c10Book) apply(o c10Op, clock func(int) int64, clockAt int) int {
 		b.note(1, cm.errC)
 		b.note(1, cm.okC)
 		b.note(0, cm.lat)
+		b.made[cm.lat.obj] = true
 		b.calls = append(b.calls, cm)
 	case "exec":
 		return 2
@@ -507,6 +536,75 @@ type c10Running struct {
 	ended  bool
 }
 
+// c10Clock turns the i-th value of the clock script into the instant globalNow() returns.
+type c10Clock struct {
+	base int
+	at   time.Time
+}
+
+type c10TimeLayout struct { // time.Time: wall, ext, loc (unchanged since Go 1.9)
+	wall uint64
+	ext  int64
+	loc  *time.Location
+}
+
+// c10Forge: at with its monotonic reading advanced by off and its wall clock part stepped by whole seconds.
+func c10Forge(at time.Time, off int64, stepSecs int64) time.Time {
+	out := at
+	p := (*c10TimeLayout)(unsafe.Pointer(&out))
+	p.ext += off
+	p.wall += uint64(stepSecs << 30) // seconds since 1885 live in bits 30..62 of wall
+	return out
+}
+
+func c10NewClock(base int) *c10Clock {
+	k := &c10Clock{base: base}
+	switch base {
+	case 1:
+		k.at = time.Time{}
+	case 2:
+		k.at = time.Date(2400, 2, 29, 12, 0, 0, 5, time.UTC)
+	case 3:
+		k.at = time.Date(1600, 6, 1, 0, 0, 0, 0, time.UTC)
+	case 4:
+		k.at = time.Now()
+		// does the forgery take on this platform? (monotonic reading present, layout as expected)
+		ok := unsafe.Sizeof(k.at) == unsafe.Sizeof(c10TimeLayout{}) && (*c10TimeLayout)(unsafe.Pointer(&k.at)).wall>>63 == 1
+		if ok {
+			f := c10Forge(k.at, 12345, -3600)
+			ok = f.Sub(k.at) == 12345 && f.Unix()-k.at.Unix() <= -3599 && f.Unix()-k.at.Unix() >= -3601
+		}
+		if !ok {
+			k.base = 0
+		}
+	}
+	return k
+}
+
+func (k *c10Clock) instant(i int, off int64) time.Time {
+	switch k.base {
+	case 0:
+		return time.Unix(0, off)
+	case 4:
+		return c10Forge(k.at, off, int64((i*7919+13)%7201)-3600)
+	}
+	return k.at.Add(time.Duration(off))
+}
+
+// c10PickBase chooses what the script's values are offsets from; the forged time.Now() base needs
+// offsets the monotonic reading can absorb.
+func c10PickBase(r *Rng, script []int64) int {
+	b := []int{0, 0, 1, 2, 3, 4, 4}[r.Intn(7)]
+	if b == 4 {
+		for _, v := range script {
+			if v > 1<<61 || v < -(1<<61) {
+				return 1 + r.Intn(3)
+			}
+		}
+	}
+	return b
+}
+
 func c10ClockAt(script []int64) func(int) int64 {
 	return func(i int) int64 {
 		if i < len(script) {
@@ -557,6 +655,7 @@ func c10Gen(r *Rng, i int) c10Case {
 			c.Clock = append(c.Clock, int64(r.Intn(1000)))
 		}
 	}
+	c.Base = c10PickBase(r, c.Clock)
 	clock := c10ClockAt(c.Clock)
 	bk := newBook(&c)
 	nops := r.Range(2, 16)
@@ -645,9 +744,18 @@ func sameStrs(a, b []string) bool {
 	return true
 }
 
+// c10SnapshotMisfiled: a timer that Snapshot().Timers() files under another id
+// than the documented one (its name, "+", its tags) cannot be looked up: its
+// values are not "visible through Snapshot().Timers()". "" = all in place.
+var c10SnapshotMisfiled string
+
 func c10Snapshot(ts tally.TestScope) (all []Ev) {
 	snap := ts.Snapshot()
-	for _, t := range snap.Timers() {
+	c10SnapshotMisfiled = ""
+	for id, t := range snap.Timers() {
+		if want := tally.KeyForPrefixedStringMap(t.Name(), t.Tags()); id != want && c10SnapshotMisfiled == "" {
+			c10SnapshotMisfiled = fmt.Sprintf("Snapshot().Timers() files the timer %q under the id %q, not under %q: looked up by its name and tags it is missing", nameTags(t.Name(), t.Tags()), id, want)
+		}
 		e := Ev{K: 31, S: nameTags(t.Name(), t.Tags())}
 		for _, v := range t.Values() {
 			e.I = append(e.I, int64(v))
@@ -692,10 +800,10 @@ func c10Run(c *c10Case) (in []Ev, obs []Ev, fail string) {
 			Reporter: &RecReporter{L: log, Caps: caps{true, true}}, OmitCardinalityMetrics: true, SanitizeOptions: c.San.opts()}, 0)
 	case 1:
 		root, _ = tally.NewRootScope(tally.ScopeOptions{Prefix: string(c.Prefix), Tags: tagsOf(c.Tags),
-			CachedReporter: &RecCached{L: log, Caps: caps{true, true}}, OmitCardinalityMetrics: true, SanitizeOptions: c.San.opts()}, 0)
+			CachedReporter: &c09PanicAlloc{RecCached: &RecCached{L: log, Caps: caps{true, true}}}, OmitCardinalityMetrics: true, SanitizeOptions: c.San.opts()}, 0)
 	case 3:
 		root, _ = tally.NewRootScope(tally.ScopeOptions{Prefix: string(c.Prefix), Tags: tagsOf(c.Tags),
-			Reporter: &RecReporter{L: log, Caps: caps{true, true}}, CachedReporter: &RecCached{L: log, Caps: caps{true, true}},
+			Reporter: &RecReporter{L: log, Caps: caps{true, true}}, CachedReporter: &c09PanicAlloc{RecCached: &RecCached{L: log, Caps: caps{true, true}}},
 			OmitCardinalityMetrics: true, SanitizeOptions: c.San.opts()}, 0)
 	default:
 		ts = tally.NewTestScope(string(c.Prefix), tagsOf(c.Tags))
@@ -703,8 +811,9 @@ func c10Run(c *c10Case) (in []Ev, obs []Ev, fail string) {
 	}
 	reads := 0
 	clock := c10ClockAt(c.Clock)
+	clk := c10NewClock(c.Base)
 	restore := tally.VerifSetNow(func() time.Time {
-		t := time.Unix(0, clock(reads))
+		t := clk.instant(reads, clock(reads))
 		reads++
 		return t
 	})
@@ -776,9 +885,30 @@ func c10Run(c *c10Case) (in []Ev, obs []Ev, fail string) {
 		case "tag":
 			scopes = append(scopes, scopes[o.H].Tagged(tagsOf(o.Tags)))
 			in = append(in, Ev{K: 42, I: []int64{int64(o.H)}, S: nameTags("", tagsOf(o.Tags))[1:]})
-		case "timer":
-			timers = append(timers, scopes[o.H].Timer(string(o.Name)))
-			in = append(in, Ev{K: 43, I: []int64{int64(o.H)}, S: []string{string(o.Name)}})
+		case "timer", "timerx":
+			var h tally.Timer
+			panicked := func() (p bool) {
+				defer func() {
+					if recover() != nil {
+						p = true
+					}
+				}()
+				h = scopes[o.H].Timer(string(o.Name))
+				return
+			}()
+			if o.Op == "timer" {
+				if panicked {
+					failf(j, "Timer(%q) panicked although the reporter refuses nothing here", string(o.Name))
+					return
+				}
+				timers = append(timers, h)
+				in = append(in, Ev{K: 43, I: []int64{int64(o.H)}, S: []string{string(o.Name)}})
+			} else {
+				if !panicked {
+					return // the refusal did not reach the caller: nothing more to say about this history
+				}
+				in = append(in, Ev{K: 55, I: []int64{int64(o.H)}, S: []string{string(o.Name)}})
+			}
 		case "rec":
 			timers[o.H].Record(time.Duration(o.D))
 			in = append(in, Ev{K: 44, I: []int64{int64(o.H), o.D}})
@@ -941,6 +1071,9 @@ func c10Run(c *c10Case) (in []Ev, obs []Ev, fail string) {
 			}
 		} else {
 			delta = c10Snapshot(ts)
+			if c10SnapshotMisfiled != "" {
+				failf(j, "%s", c10SnapshotMisfiled)
+			}
 			now := map[string][]int64{}
 			for _, e := range delta {
 				if e.K == 31 {
@@ -1125,7 +1258,7 @@ func c10Term(idx int, c *c10Case, in, obs []Ev) string {
 func init() {
 	props["C10"] = func(ctx *Ctx) {
 		ctx.Header("TimerCorr")
-		ctx.Res.Rule = "case = (flavour of root scope, root prefix/tags, clock script, history of SubScope/Tagged/Timer/Record/report pass/Start/Stop/Histogram/NewCall/Exec calls); generated from the seed; plus instrumented calls with every kind of error value and overlapping executions of one Call, histories that close scopes, unscheduled concurrent Records on one timer, long histories (hundreds of Records on one or two timers) and concurrent cases (threads obtaining the same new timer and recording on their handles, with the schedule); non-trivial = at least one value reaches a timer (Record, Stop or Exec); distinct by hash of the case"
+		ctx.Res.Rule = "case = (flavour of root scope, root prefix/tags, clock script, history of SubScope/Tagged/Timer/Record/report pass/Start/Stop/Histogram/NewCall/Exec calls); generated from the seed; clock script offsets taken from five bases (epoch, year 1, 2400, 1600, a monotonic time.Now() with a stepped wall clock), plus timers whose allocation the cached reporter refuses, instrumented calls with every kind of error value and overlapping executions of one Call, histories that close scopes, unscheduled concurrent Records on one timer, long histories (hundreds of Records on one or two timers) and concurrent cases (threads obtaining the same new timer and recording on their handles, with the schedule); non-trivial = at least one value reaches a timer (Record, Stop or Exec); distinct by hash of the case"
 		fl := []string{"plain", "cached", "test", "both"}
 		one := func(c *c10Case) {
 			if c.Wall > 0 {
@@ -1202,6 +1335,10 @@ func init() {
 			c := c
 			one(&c)
 		}
+		for _, c := range c10FixedClock() {
+			c := c
+			one(&c)
+		}
 		for _, c := range c10FixedClose() {
 			c := c
 			one(&c)
@@ -1223,6 +1360,12 @@ func init() {
 		// overlapping ("records one latency": the time that execution took)
 		for i := 0; i < ctx.N(150, 2500); i++ {
 			c := c10GenExec(ctx.R, i)
+			one(&c)
+		}
+		// a cached reporter that refuses allocations (AllocateTimer panics, the caller recovers): "Each
+		// Timer.Record(d) results in exactly one timer delivery" on whatever handle a later Timer(name) returns
+		for i := 0; i < ctx.N(100, 1500); i++ {
+			c := c10GenRefuse(ctx.R, i)
 			one(&c)
 		}
 		// scopes that get closed: "Each Timer.Record(d) results in exactly one timer delivery" also on
@@ -1329,6 +1472,7 @@ func c10GenExec(r *Rng, i int) c10Case {
 			c.Clock = append(c.Clock, int64(40*j*j))
 		}
 	}
+	c.Base = c10PickBase(r, c.Clock)
 	clock := c10ClockAt(c.Clock)
 	bk := newBook(&c)
 	at := 0
@@ -1422,6 +1566,96 @@ func c10FixedExec() []c10Case {
 	return out
 }
 
+// c10GenRefuse: timers whose names make the cached reporter refuse their
+// allocation always ("boom") or the first time ("once"); the caller recovers
+// and goes on: the same name again, Records, stopwatches, report passes.
+func c10GenRefuse(r *Rng, i int) c10Case {
+	c := c10Case{Flavour: []int{1, 3, 1, 3, 0, 2}[i%6]}
+	c.Prefix = B(r.Pick([]string{"", "p"}))
+	c.Tags = c10Tags(r, 1)
+	for j, t := 0, int64(r.Intn(1000)); j < 24; j++ {
+		c.Clock = append(c.Clock, t)
+		t += int64(r.Intn(1000000))
+	}
+	c.Base = c10PickBase(r, c.Clock)
+	clock := c10ClockAt(c.Clock)
+	bk := newBook(&c)
+	names := []string{"once", "once", "boom", "t", "a_once", "retry.once", "kaboom"}
+	if c.Flavour == 2 {
+		names = []string{"once", "boom", "t", "a_once"}
+	}
+	at := 0
+	for n := r.Range(5, 16); n > 0; n-- {
+		var o c10Op
+		switch x := r.Intn(100); {
+		case x < 8:
+			o = c10Op{Op: "sub", H: r.Intn(len(bk.scopes)), Name: B(r.Pick([]string{"s", "db"}))}
+		case x < 12:
+			o = c10Op{Op: "tag", H: r.Intn(len(bk.scopes)), Tags: c10Tags(r, 1)}
+		case x < 50 || len(bk.timers) == 0:
+			o = c10Op{Op: "timer", H: r.Intn(len(bk.scopes)), Name: B(r.Pick(names))}
+			if bk.refuses(bk.scopes[o.H], string(o.Name)) {
+				o.Op = "timerx"
+			} else if c.Flavour == 2 && bk.collides(0, bk.scopes[o.H].metric(string(o.Name))) {
+				o = c10Op{Op: "pass"}
+			}
+		case x < 75:
+			o = c10Op{Op: "rec", H: r.Intn(len(bk.timers)), D: r.I64()}
+		case x < 82:
+			o = c10Op{Op: "pass"}
+		case x < 90:
+			o = c10Op{Op: "start", H: r.Intn(len(bk.timers))}
+		case len(bk.sws) > 0:
+			o = c10Op{Op: "stop", H: r.Intn(len(bk.sws))}
+		default:
+			o = c10Op{Op: "pass"}
+		}
+		at += bk.apply(o, clock, at)
+		c.Ops = append(c.Ops, o)
+	}
+	c.Ops = append(c.Ops, c10Op{Op: "pass"})
+	return c
+}
+
+// c10FixedClock: one stopwatch history per clock base and flavour pair, and the refused allocations.
+func c10FixedClock() []c10Case {
+	ops := []c10Op{
+		{Op: "timer", H: 0, Name: "t"},
+		{Op: "hist", H: 0, Name: "h", Spec: []int64{1000000, 60000000000}},
+		{Op: "start", H: 0},
+		{Op: "hstart", H: 0},
+		{Op: "stop", H: 0},
+		{Op: "stop", H: 1},
+		{Op: "call", H: 0, Name: "rpc"},
+		{Op: "exec", H: 0},
+		{Op: "begin", H: 0},
+		{Op: "end", H: 0, Err: true, Kind: 5},
+		{Op: "pass"},
+	}
+	clk := []int64{0, 1000, 2001000, 2002000, 5000000000, 5000000007, 6000000000, 6000040000}
+	var out []c10Case
+	for b := 1; b <= 4; b++ {
+		out = append(out, c10Case{Flavour: []int{2, 0, 1, 3}[b-1], Base: b, Prefix: "p", Clock: clk, Ops: ops})
+	}
+	refuse := []c10Op{
+		{Op: "sub", H: 0, Name: "s"},
+		{Op: "timerx", H: 1, Name: "once"},
+		{Op: "timer", H: 1, Name: "once"},
+		{Op: "rec", H: 0, D: 5},
+		{Op: "start", H: 0},
+		{Op: "timerx", H: 1, Name: "boom"},
+		{Op: "timerx", H: 1, Name: "boom"},
+		{Op: "timer", H: 1, Name: "once"},
+		{Op: "rec", H: 1, D: 6},
+		{Op: "stop", H: 0},
+		{Op: "pass"},
+	}
+	for _, f := range []int{1, 3} {
+		out = append(out, c10Case{Flavour: f, Prefix: "p", Clock: []int64{100, 175}, Ops: refuse})
+	}
+	return out
+}
+
 // c10GenClose: histories in which scopes are closed (sub-scopes, in the end
 // often the root). Calls are limited to SubScope / Tagged / Timer / Record /
 // Start / Stop / report pass / Close, and to what the documentation defines:
@@ -1435,6 +1669,7 @@ func c10GenClose(r *Rng, i int) c10Case {
 		c.Clock = append(c.Clock, t)
 		t += int64(r.Intn(1000000))
 	}
+	c.Base = c10PickBase(r, c.Clock)
 	clock := c10ClockAt(c.Clock)
 	bk := newBook(&c)
 	g := bk.scopes[0].g
